@@ -5,21 +5,22 @@
 set -u
 SD=$1; shift
 export GOFLAGS=-mod=mod GOPROXY=off GOSUMDB=off GOTOOLCHAIN=local
-cd /repo || exit 2
+R=${TRY_REPO:-/repo}
+cd $R || exit 2
 if [ -n "$(git status --porcelain --untracked-files=no)" ]; then echo "/repo not clean"; exit 2; fi
 DEMO_DIR=$(python3 -c "import json,sys;print(json.load(open('$SD/meta.json')).get('demo_pkg_dir','.'))" 2>/dev/null)
 case "$DEMO_DIR" in *internal/lz4block*) DEMO_DIR=internal/lz4block;; *internal/lz4stream*) DEMO_DIR=internal/lz4stream;; *internal/xxh32*) DEMO_DIR=internal/xxh32;; *) DEMO_DIR=.;; esac
-cp $SD/demo_test.go /repo/$DEMO_DIR/zz_seed_demo_test.go
+cp $SD/demo_test.go $R/$DEMO_DIR/zz_seed_demo_test.go
 echo "--- demo on pristine tree"
 timeout 600 go test -vet=off -count=1 -run 'Demo|C[0-9][0-9]' ./$DEMO_DIR 2>&1 | tail -3
-git apply $SD/patch.diff || { rm -f /repo/$DEMO_DIR/zz_seed_demo_test.go; echo "patch does not apply"; exit 2; }
+git apply $SD/patch.diff || { rm -f $R/$DEMO_DIR/zz_seed_demo_test.go; echo "patch does not apply"; exit 2; }
 echo "--- demo with patch"
 timeout 600 go test -vet=off -count=1 -run 'Demo|C[0-9][0-9]' ./$DEMO_DIR 2>&1 | tail -3
-rm -f /repo/$DEMO_DIR/zz_seed_demo_test.go
+rm -f $R/$DEMO_DIR/zz_seed_demo_test.go
 echo "--- pinned suite with patch"
-python3 /verif/scripts/baseline_check.py
+VERIF_REPO=$R python3 /verif/scripts/baseline_check.py
 for c in "$@"; do
   echo "--- check $c with patch"
-  (cd /verif && timeout 1500 bin/vcheck $c --tier quick > /tmp/seed_$c.log 2>&1; echo "exit=$?"; grep -E "VIOLATION|KNOWN|MISMATCH|INCONCL|NOTE" /tmp/seed_$c.log | cut -c1-260 | head -6; tail -1 /tmp/seed_$c.log | cut -c1-300)
+  (cd /verif && VERIF_REPO=$R VERIF_DIR=${TRY_VERIF_DIR:-/verif} timeout 1500 bin/vcheck $c --tier quick > /tmp/seed_$c.log 2>&1; echo "exit=$?"; grep -E "VIOLATION|KNOWN|MISMATCH|INCONCL|NOTE" /tmp/seed_$c.log | cut -c1-260 | head -6; tail -1 /tmp/seed_$c.log | cut -c1-300)
 done
-cd /repo && git checkout -- . && git status --porcelain --untracked-files=no
+cd $R && git checkout -- . && git status --porcelain --untracked-files=no
